@@ -1,11 +1,13 @@
 package props
 
 import (
+	"encoding/hex"
 	"fmt"
 	"strings"
 
 	"verif/sim/model"
 	"verif/sim/rt"
+	"verif/sim/simkv"
 	"verif/sim/world"
 )
 
@@ -114,6 +116,14 @@ func genC03(r *rt.Rand, tier string, idx int) *world.Scenario {
 			cl.Ops = append(cl.Ops, reads(4+r.Intn(8))...)
 			cl.Ops = append(cl.Ops, first...)
 			sc.Clients = append(sc.Clients, cl)
+		}
+	}
+	if idx%5 == 1 {
+		// reads must not depend on how the engine partitions the scanned interval either (see C13)
+		sc.Class += "+partitions"
+		for i := 0; i < 1+r.Intn(3); i++ {
+			b := simkv.EncodeKey([]byte(keys[r.Intn(len(keys))]), []uint64{0, sc.InitRev + uint64(1+r.Intn(nw))}[r.Intn(2)])
+			sc.Parts = append(sc.Parts, hex.EncodeToString(b))
 		}
 	}
 	if idx%10 == 9 {
